@@ -99,9 +99,14 @@ class QuadricTensor(ProjectiveTensor, ABC):
     def __getitem__(self, index: TensorIndex) -> Tensor | np.generic:
         result = super().__getitem__(index)
 
-        if isinstance(result, QuadricTensor):
-            result.is_dual = self.is_dual
+        if not isinstance(result, Tensor) or result.tensor_shape != self.tensor_shape:
+            return result
 
+        if not isinstance(result, QuadricTensor):
+            # a part of a collection (a slice, fewer integers than collection axes) is a collection of quadrics again
+            result = QuadricCollection.from_tensor(result)
+
+        result.is_dual = self.is_dual
         return result
 
     @classmethod
